@@ -76,6 +76,7 @@ impl<'a> Visitor for Enumerate<'a> {
             ]
         };
         degenerate_iterators::<F, D>(d, &l, self.stats);
+        scenarios::<F, D>(d, &l, self.stats);
         for inputs in input_points::<F>(&l, self.mode) {
             for cfg in &cfgs {
                 let info = bfs_programs::<F, D>(d, &l, &inputs, cfg, self.stats);
@@ -87,6 +88,58 @@ impl<'a> Visitor for Enumerate<'a> {
                     "pruned_by_reference_domain": info.pruned, "capped": info.capped,
                 }));
             }
+        }
+    }
+}
+
+/// a few programs with large parameters that the alphabet of the breadth-first exploration does not
+/// contain (its constants are small): compound interest (1 + x/n)^n through powf and powi with
+/// n beyond / at the edge of the i32 range, a saturated gate x tanh(40 x), a long product
+fn scenario_programs() -> Vec<(&'static str, Program, Vec<f64>)> {
+    use Op::*;
+    let st = |op: Op, args: Vec<usize>| Step { op, args };
+    vec![
+        ("scenario (1+x/n)^n powf n=3e9", Program { n_inputs: 1, steps: vec![st(DivF(3e9), vec![0]), st(AddF(1.0), vec![1]), st(Powf(3e9), vec![2])] }, vec![1.5]),
+        ("scenario (1+x/n)^n powf n=-2^32", Program { n_inputs: 1, steps: vec![st(DivF(-4294967296.0), vec![0]), st(AddF(1.0), vec![1]), st(Powf(-4294967296.0), vec![2])] }, vec![-0.75]),
+        ("scenario (1+x/n)^n powi n=2^30", Program { n_inputs: 1, steps: vec![st(DivF(1073741824.0), vec![0]), st(AddF(1.0), vec![1]), st(Powi(1 << 30), vec![2])] }, vec![1.5]),
+        ("scenario x tanh(40x)", Program { n_inputs: 1, steps: vec![st(MulF(40.0), vec![0]), st(Tanh, vec![1]), st(Mul, vec![0, 2])] }, vec![10.0]),
+        ("scenario sqrt(x x y) / y", Program { n_inputs: 2, steps: vec![st(Product(3), vec![0, 0, 1]), st(Sqrt, vec![2]), st(DivA, vec![3, 1])] }, vec![1.25, 2.5]),
+    ]
+}
+
+fn scenarios<F: Flt, D: Subject<F>>(d: Dims, l: &Layout, st: &mut Stats) {
+    if F::PREC != 53 {
+        return; // 1 + x/n is 1 in single precision
+    }
+    for (name, prog, res) in scenario_programs() {
+        let inputs: Vec<Parts<F>> = res.iter().enumerate().map(|(k, r)| few_assignments::<F>(l, *r, 1, k * l.nslots()).remove(0)).collect();
+        st.evaluations += 1;
+        st.transitions += prog.steps.len() as u64;
+        let vals: Vec<Val> = inputs.iter().map(|p| Val::exact(p.to_jet::<refmodel::DD>(l))).collect();
+        let want = match prog.run_ref(&vals, F::U, 0.0) {
+            Some(w) => w,
+            None => machinery(&format!("C03 scenario {name}: the reference leaves its domain")),
+        };
+        let args: Vec<D> = inputs.iter().map(|p| D::build(d, p)).collect();
+        let key = hash64(&(name, l.type_name.clone()));
+        st.state(key);
+        st.nontrivial(key);
+        let case = || json!({"type": l.type_name, "dims": [d.m, d.n], "float": F::NAME, "inputs": inputs.iter().map(parts_to_json).collect::<Vec<_>>(), "steps": prog.steps.iter().map(|s| json!({"op": op_to_json(s.op), "args": s.args})).collect::<Vec<_>>()});
+        let got = match guarded(|| prog.run_impl::<F, D>(&args).parts(d)) {
+            Ok(g) => g,
+            Err(m) => {
+                st.violation(Violation { sig: format!("{name} {} panic", l.type_name), case: case(), what: format!("panicked: {m}") });
+                continue;
+            }
+        };
+        st.outcome(hash64(&got.bits()));
+        let cmp = compare_tol(l, &got, &want, None, 2.0);
+        if !cmp.ok {
+            st.violation(Violation {
+                sig: format!("{name} {} order{}", l.type_name, l.slot_degree(cmp.worst_slot)),
+                case: case(),
+                what: format!("{}: slot {} got {:e} want {:e} tol {:e}", prog.describe(), l.slots[cmp.worst_slot].name, cmp.got, cmp.want, cmp.tol),
+            });
         }
     }
 }
@@ -243,7 +296,7 @@ fn main() {
         mode: cli.mode,
         seed: cli.seed,
         start,
-        rule: "breadth-first exploration of ALL straight-line programs over the operation alphabet (66 operations: functions, powers, scalar and compound-assignment forms, borrowed forms, atan2, powd, mul_add, iterator sum/product) on registers {x0, x1, lifted constant, earlier results}, any register may be re-used (DAGs, r op= r); quick: length <= 2 over the full alphabet (the last step must read the newest register; otherwise its value is that of a shorter program), thorough: length 2 full alphabet and length 3 over the one-representative-per-family alphabet; states = register files, de-duplicated by the multiset of register bit patterns; programs whose reference real parts leave the margin-shrunk domain are pruned by the reference; input points include one with a zero and one with large real parts (20, -50); plus iterator sums and products over zero and one items on every type. Non-trivial = length >= 2 or a non-zero derivative part.".into(),
+        rule: "breadth-first exploration of ALL straight-line programs over the operation alphabet (66 operations: functions, powers, scalar and compound-assignment forms, borrowed forms, atan2, powd, mul_add, iterator sum/product) on registers {x0, x1, lifted constant, earlier results}, any register may be re-used (DAGs, r op= r); quick: length <= 2 over the full alphabet (the last step must read the newest register; otherwise its value is that of a shorter program), thorough: length 2 full alphabet and length 3 over the one-representative-per-family alphabet; states = register files, de-duplicated by the multiset of register bit patterns; programs whose reference real parts leave the margin-shrunk domain are pruned by the reference; input points include one with a zero and one with large real parts (20, -50); plus iterator sums and products over zero and one items and five scenario programs with large parameters ((1 + x/n)^n with n up to 3e9, x tanh(40x)) on every type. Non-trivial = length >= 2 or a non-zero derivative part.".into(),
         assumptions: vec![
             "oracle: the same program in the reference algebra over double-double; acceptance |impl - ref| <= 2 E_out with the propagated first-order bound of DESIGN 2.5".into(),
             "inputs carry generic independent parts of every order; real parts are grid points".into(),
